@@ -34,7 +34,7 @@ def handleStart20 (l : Line) : List Verdict :=
       clientJwk := match jwk with | "valid" => .valid | "malformed" => .malformed | _ => .absent, clientSecret := ← b "secret",
       wellKnown := wellknown != "absent", discoveryReachable := wellknown != "unreachable",
       sso, ssoMode := match mode with | "proxy" => .proxy | "badmode" => .other | _ => .server,
-      redis := redis != "none" || redissecret != "none", redisReachable := redis != "unreachable" || redissecret == "uri",
+      redis := redis != "none" || redissecret != "none", redisReachable := redis != "unreachable" || redissecret == "uri" || redissecret == "uri-enc" || redissecret == "uri-dup",
       ssoCookieName := (← b "cookiename") && sso, ssoServerUrlParses := (← g "serverurl") == "ok" && sso, ssoDomain := (← b "domain") && sso,
       ssoDefaultRedirectParses := (← g "defaulturl") == "ok" && sso,
       cookieSecure := ← b "secure", sameSiteValid := (← g "samesite") == "Lax",
